@@ -171,47 +171,25 @@ theorem sampling_concat_eq_kMerge {lt : Int → Int → Bool} {tl : Elem → Ele
 
 /-! ### the splitters the code uses are non-decreasing -/
 
-theorem insertKey_perm (lt : Int → Int → Bool) (x : Int) : ∀ ys, (insertKey lt x ys).Perm (x :: ys)
-  | [] => List.Perm.refl _
-  | y :: ys => by
-    unfold insertKey
-    split
-    · exact ((insertKey_perm lt x ys).cons y).trans (List.Perm.swap x y ys)
-    · exact List.Perm.refl _
-
-theorem sortKeys_perm (lt : Int → Int → Bool) : ∀ l, (sortKeys lt l).Perm l
-  | [] => List.Perm.refl _
-  | x :: l => by
-    show (insertKey lt x (sortKeys lt l)).Perm (x :: l)
-    exact (insertKey_perm lt x _).trans ((sortKeys_perm lt l).cons x)
-
-theorem insertKey_sorted {lt : Int → Int → Bool} (hlt : StrictWeak lt) (x : Int) :
-    ∀ ys, ys.Pairwise (fun a b => lt b a = false) → (insertKey lt x ys).Pairwise (fun a b => lt b a = false)
-  | [], _ => List.pairwise_singleton _ _
-  | y :: ys, hs => by
-    have hy := List.pairwise_cons.mp hs
-    unfold insertKey
-    split
-    · rename_i hyx
-      refine List.pairwise_cons.mpr ⟨?_, insertKey_sorted hlt x ys hy.2⟩
-      intro z hz
-      rcases List.mem_cons.mp ((insertKey_perm lt x ys).subset hz) with hz | hz
-      · subst hz; exact hlt.asymm _ _ hyx
-      · exact hy.1 z hz
-    · rename_i hyx
-      have hyx' : lt y x = false := by simpa using hyx
-      refine List.pairwise_cons.mpr ⟨?_, hs⟩
-      intro z hz
-      rcases List.mem_cons.mp hz with hz | hz
-      · subst hz; exact hyx'
-      · exact hlt.le_trans hyx' (hy.1 z hz)
+theorem sortKeys_perm (lt : Int → Int → Bool) (l : List Int) : (sortKeys lt l).Perm l :=
+  List.mergeSort_perm l _
 
 /-- model component: the sorted samples (`std::(stable_)sort(samples, comp)`) are non-decreasing, so the
 splitter values read at non-decreasing indices satisfy the hypothesis of `sampling_concat_eq_kMerge` -/
-theorem sortKeys_sorted {lt : Int → Int → Bool} (hlt : StrictWeak lt) :
-    ∀ l, (sortKeys lt l).Pairwise (fun a b => lt b a = false)
-  | [] => List.Pairwise.nil
-  | x :: l => insertKey_sorted hlt x _ (sortKeys_sorted hlt l)
+theorem sortKeys_sorted {lt : Int → Int → Bool} (hlt : StrictWeak lt) (l : List Int) :
+    (sortKeys lt l).Pairwise (fun a b => lt b a = false) := by
+  have h := List.pairwise_mergeSort (le := fun a b => !lt b a)
+    (by
+      intro a b c hab hbc
+      simp only [Bool.not_eq_true'] at hab hbc ⊢
+      exact hlt.le_trans hab hbc)
+    (by
+      intro a b
+      cases hba : lt b a with
+      | false => simp
+      | true => simp [hlt.asymm _ _ hba])
+    l
+  exact List.Pairwise.imp (fun hab => by simpa using hab) h
 
 /-- values read from a non-decreasing list at non-decreasing positions are non-decreasing -/
 theorem pairwise_map_getD {lt : Int → Int → Bool} (hlt : StrictWeak lt) {sorted : List Int}
